@@ -8,8 +8,8 @@
 #include <unordered_set>
 #ifdef VP_STRVARIANT
 #include <string>
-// the one basic_string member that implicit instantiation leaves out-of-line
-template void std::__cxx11::basic_string<char>::_M_construct(std::size_t, char);
+// every member of std::string gets IR (explicit instantiation definition)
+template class std::__cxx11::basic_string<char>;
 #endif
 #include "verif.h"
 
